@@ -455,6 +455,7 @@ func mainCheck(args []string) int {
 	exit := 0
 	var vioLines []string
 	var knownHit []string
+	replays := map[*Obligation]*replayOutcome{}
 	report := func(o *Obligation, reason string) {
 		// known finding?
 		for _, f := range findings {
@@ -469,9 +470,17 @@ func mainCheck(args []string) int {
 		rp := filepath.Join(outDir, "replay-"+sanitizeFile(o.Name)+".json")
 		rec := map[string]any{"property": id, "obligation": o.Name, "kind": o.Kind, "where": o.Where, "clause": o.Src, "result": o.Result,
 			"reason": reason, "solver_output": o.Output, "smt_file": o.SMTFile, "failing_input": nil}
+		suffix := "no-failing-input-found"
+		if ro := replays[o]; ro != nil {
+			rec["replay"] = ro
+			if ro.Reproduced {
+				rec["failing_input"] = map[string]any{"call": ro.Call, "args": ro.Args, "observed_on_real_code": ro.Observed}
+				suffix = "failing-input-replayed-on-real-code call=" + strings.ReplaceAll(ro.Call, " ", "")
+			}
+		}
 		data, _ := json.MarshalIndent(rec, "", " ")
 		os.WriteFile(rp, data, 0o644)
-		vioLines = append(vioLines, fmt.Sprintf("VIOLATION property=%s replay=%s obligation=%s result=%s no-failing-input-found", id, rp, o.Name, o.Result))
+		vioLines = append(vioLines, fmt.Sprintf("VIOLATION property=%s replay=%s obligation=%s result=%s %s", id, rp, o.Name, o.Result, suffix))
 		exit = 1
 	}
 	for _, o := range notRegen {
@@ -487,6 +496,25 @@ func mainCheck(args []string) int {
 		} else {
 			report(o, "call-graph frame condition: "+o.Output)
 		}
+	}
+	// counterexample replay on the real code for failed postconditions (bounded effort per run)
+	nrep := 0
+	for _, it := range items {
+		o := it.o
+		if o.Cover || o.Kind != "ensures" || o.Result == "unsat" || (tier == "thorough" && o.Result == "unsat-single") || nrep >= 8 {
+			continue
+		}
+		known := false
+		for _, f := range findings {
+			if f.kind == "finding" && f.property == id && f.obligation == o.Name {
+				known = true
+			}
+		}
+		if known {
+			continue
+		}
+		nrep++
+		replays[o] = attemptReplay(it, outDir)
 	}
 	for _, it := range items {
 		o := it.o
